@@ -7,19 +7,21 @@ from zonelib import AMAX, BMIN, MAXI, MINI, NPD, NPS
 
 META = {
     "property": "C04",
-    "proof_modules": ["PyodaProofs.C04", "PyodaProofs.C04Spec"],
+    "proof_modules": ["PyodaProofs.C04", "PyodaProofs.C04Spec", "PyodaProofs.C04Tail", "PyodaProofs.C04TailRules"],
     "drivers": ["drv_zone"],
     "theorems": [
         "Pyoda.C04.search_spec", "Pyoda.C04.precalc_get_contains", "Pyoda.C04.precalc_get_unique",
         "Pyoda.C04.precalc_abut", "Pyoda.C04.periodsWF_sound", "Pyoda.C04.fixed_partition",
         "Pyoda.C04.tail_seam", "Pyoda.C04.altmap_get_shape",
         "Pyoda.C04.precalc_spec", "Pyoda.C04.agrees", "Pyoda.C04.dataOK_sound", "Pyoda.C04.dataOK_gives_spec",
+        "Pyoda.C04.altmap_get_dst", "Pyoda.C04.altmap_get_std", "Pyoda.C04.altmap_partition", "Pyoda.C04.recSpec_of_rule",
+        "Pyoda.C04.ruleOK_sound", "Pyoda.C04.tailOK_sound", "Pyoda.C04.tail_partition_of_tailOK", "Pyoda.C04.tail_partition_of_tailOK_stdFirst",
     ],
     "trusted_base": [
         "zone data (periods, tail rules) are read from the code's decoded objects and sent to the model per run; C06 ties them to the file bytes",
-        "tail (recurring rules): theorem altmap_get_contains is conditional on the recurrence specifications, which are discharged by executing the model over every year for every distinct rule pair (evaluation, not proof)",
+        "tail (recurring rules): tail_partition_of_tailOK proves partition/abutting/constancy between the first transition after 1901 and the last before 9994 from the decidable per-year check tailOK (each yearly occurrence inside its own local year, the two rules alternate), which the compiled driver evaluates on the current rules of every zone (trusted: Lean compiler for that evaluation); the Gregorian year search used by the rules is the one proved in C01 (getYear_spec, greg_wf)",
     ],
-    "partial": ["the recurring tail is decided by model execution over all years plus correspondence, not by a closed theorem (DESIGN C04 'TailOK' window lemma not proved)"],
+    "partial": ["recurring tail: the seam interval (clamped first tail interval), years before 1901 / after 9994 and the end-of-time sentinels are decided by model execution plus correspondence, not by the tail theorems; zones whose rules fail tailOK (none in tzdb 2023c) likewise"],
     "rule": "instants: every stored period boundary -1ns/0/+1ns of every zone, tail transitions through 2100 and in far years, range ends, seeded random; distinct = distinct (zone, instant); non-trivial = zone has more than one interval",
 }
 
@@ -154,6 +156,10 @@ def run(ctx):
                 not_dataok.append(z.id)
     ctx.note("shortest_finite_period_hours", minlen / 3.6e12)
     ctx.note("zones_with_tail", n_tail)
+    tz_tail = [(sid, z) for sid, rid, z in zs if Z.zone_data(z)[1] is not None]
+    tok = model_eval(defs + [f"tail.ok {sid} 1900 9996" for sid, _ in tz_tail], "drv_zone")[len(defs):]
+    ctx.note("tail_zones_with_partition_hypotheses_discharged_by_tailOK", {"dst_first": tok.count("1"), "std_first": tok.count("2")})
+    ctx.note("tail_zones_failing_tailOK", [z.id for (sid, z), r in zip(tz_tail, tok) if r not in ("1", "2")][:20])
     ctx.note("tailless_zones_with_C05_hypotheses_discharged_by_dataOK_and_theorem", n_dataok)
     ctx.note("tailless_zones_failing_dataOK", not_dataok[:20])
     ctx.oracles["data.PeriodsWF"] = {"cases": len(zs), "failures": sum(1 for f in ctx.failures if f["source"].startswith("model-eval")), "exhaustive": True}
